@@ -183,13 +183,14 @@ u32 id, terminated by the id 0xFFFFFFFF) and `MonsterMoveSplines` (u32 count, a 
 sequences of four basic fields; everything is built from the integer / packed-guid primitives above, so the leaf codecs below can
 dispatch to them.  The other built-in names stay outside (`.other`). -/
 inductive PrimKind where
-  | achDone | achProg | splines | other
+  | achDone | achProg | splines | updateMask | other
   deriving Repr, DecidableEq, Inhabited
 
 def primKind (name : String) : PrimKind :=
   if name = "AchievementDoneArray" then .achDone
   else if name = "AchievementInProgressArray" then .achProg
   else if name = "MonsterMoveSplines" then .splines
+  else if name.startsWith "UpdateMask" then .updateMask
   else .other
 
 def sentinelId : Nat := 4294967295
@@ -291,6 +292,57 @@ def decSplines (bs : Bytes) : Except Err (List Val × Bytes) :=
             | .error x => .error x
             | .ok (ps, r3) => .ok (p :: ps, r3)
 
+/-! update mask (wire form; the typed accessors are C13's subject): u8 number of 32-bit mask blocks, the blocks, then one u32 per set bit
+in ascending bit order.  The library's reader needs the object TYPE field (index 2) to be present and to name an object kind. -/
+def encU32V : Val → Option Bytes
+  | .nat n => encInt 4 .le n
+  | _ => Option.none
+
+def decU32V (bs : Bytes) : Except Err (Val × Bytes) :=
+  match decInt 4 .le bs with
+  | .ok (n, r) => .ok (.nat n, r)
+  | .error x => .error x
+
+def popc32 (n : Nat) : Nat := (List.range 32).foldl (fun a i => a + (n / 2 ^ i) % 2) 0
+
+def natOf : Val → Nat
+  | .nat n => n
+  | _ => 0
+
+def umCount (masks : List Val) : Nat := (masks.map fun v => popc32 (natOf v)).sum
+
+/-- the TYPE field (index 2) is present and names an object kind (item 2, container 4, unit 8, player 16, game object 32, dynamic object 64, corpse 128) -/
+def umTypeOk (masks values : List Val) : Bool :=
+  match masks with
+  | [] => false
+  | m0 :: _ =>
+    let m := natOf m0
+    (m / 4) % 2 == 1 &&
+      (match values[(m % 2) + (m / 2) % 2]? with
+       | some ty => (natOf ty % 256) / 2 != 0
+       | Option.none => false)
+
+def encUpdateMask : Val → Option Bytes
+  | .tuple [.list masks, .list values] =>
+      if values.length = umCount masks ∧ umTypeOk masks values = true then
+        match encInt 1 .le masks.length, iterEnc encU32V masks, iterEnc encU32V values with
+        | some c, some mb, some vb => some (c ++ mb ++ vb)
+        | _, _, _ => Option.none
+      else Option.none
+  | _ => Option.none
+
+def decUpdateMask (bs : Bytes) : Except Err (Val × Bytes) :=
+  match decInt 1 .le bs with
+  | .error x => .error x
+  | .ok (n, r) =>
+    match iterDec decU32V n r with
+    | .error x => .error x
+    | .ok (masks, r2) =>
+      match iterDec decU32V (umCount masks) r2 with
+      | .error x => .error x
+      | .ok (values, r3) =>
+        if umTypeOk masks values then .ok (.tuple [.list masks, .list values], r3) else .error (.enumValue 0)
+
 def achDoneFields : List BLeaf := [.dt]
 def achProgFields : List BLeaf := [.pg, .pg, .bool32, .dt, .u32, .u32]
 
@@ -299,6 +351,7 @@ def encPrim (name : String) (v : Val) : Option Bytes :=
   | .achDone, .list vs => encSent achDoneFields vs
   | .achProg, .list vs => encSent achProgFields vs
   | .splines, .list vs => encSplines vs
+  | .updateMask, v => encUpdateMask v
   | _, _ => Option.none
 
 def decPrim (name : String) (bs : Bytes) : Except Err (Val × Bytes) :=
@@ -312,6 +365,7 @@ def decPrim (name : String) (bs : Bytes) : Except Err (Val × Bytes) :=
   | .splines => match decSplines bs with
       | .ok (vs, r) => .ok (.list vs, r)
       | .error x => .error x
+  | .updateMask => decUpdateMask bs
   | .other => .error (.unsupported name)
 
 def encLeaf (l : Leaf) (v : Val) : Option Bytes :=
